@@ -16,6 +16,20 @@ def snapshot_loader(ctx):
     return [e.site.body for e in ctx.fx.of_kind("FS_READFILE") if "INDEX" in e.classes]
 
 
+def loader_family(ctx, loaders):
+    """The loader and the crate-private helpers / closures it runs (a decode step split out of it, the closure of a
+    `try_fold` over the decoded entries): everything reachable from the loader that is not an API function."""
+    prog = ctx.prog
+    fam = {}
+    for lb in loaders:
+        fam[lb.path] = lb
+        for p in prog.reachable_bodies([lb], include_drops=False):
+            b = prog.bodies[p]
+            if b.is_closure or not b.reachable:
+                fam[p] = b
+    return list(fam.values())
+
+
 def replay_callbacks(ctx):
     """Closures bound to a generic FnMut parameter that are invoked from the open path and mutate
     the index (the replay callback)."""
@@ -252,51 +266,86 @@ def snapshot_version(ctx, r, loaders):
                         "the snapshot encoder at %s gets key map from %s and version from %s" % (
                             site_where(s), sorted(fmt_leaf(x) for x in kms), sorted(fmt_leaf(x) for x in svs)),
                         site_where(s))
-    # (b) checkpoint body: version written into the state == version handed to the prune step, derived from the WAL manager
-    for w in ctx.world.field_writes:
-        if w.field != sv or w.body.path in [b.path for b in loaders]:
+    # (b) checkpoint: version written into the state == version handed to the prune step, derived from the WAL manager.
+    # Judged on the flat view of the function that prunes (the save, and the write of the version, may sit in helpers
+    # such as a persister method that stamps the version itself)
+    from ..prov import expand_down
+    walmgr = A.get("WALMGR")
+    wal_methods = tuple(p_ for p_, bd in prog.bodies.items() if bd.argc >= 1 and prog.adt_of(bd.locals[1])[0] == walmgr)
+    lfam = set(b_.path for b_ in loader_family(ctx, loaders))
+    g = ctx.world.vfg
+
+    def conc(site):
+        return sem_set(e for e in ctx.may.site_events(site) if ctx._concrete(e))
+    views = []
+    for pb in prog.bodies.values():
+        if pb.is_closure:
             continue
-        b = w.body
-        sl = Slicer(ctx.world, b)
-        # (the version may be handed to a private helper that stores it: trace parameters up to the callers)
-        written = sl.leaves_up(w.rv["op"], depth=4) if w.rv["k"] == "use" else set()
-        # ... and a value computed by a planning helper is traced into that helper
-        from ..prov import expand_down
-        written = expand_down(ctx.world, b, written, depth=3, stop=tuple(
-            p_ for p_, bd in prog.bodies.items() if bd.argc >= 1 and prog.adt_of(bd.locals[1])[0] == A.get("WALMGR")))
-        wal_calls = [l for l in written if l[0] == "call"]
-        walmgr = A.get("WALMGR")
-        from_wal = False
-        for l in wal_calls:
-            t = sl.call_at(l[2])
-            lb = sl.body_at(l[2])
-            tgt = prog.local_target(Site(lb, l[2][1] if isinstance(l[2], tuple) else l[2], t))
-            if tgt is not None and tgt.argc >= 1 and prog.adt_of(tgt.locals[1])[0] == walmgr:
-                from_wal = True
-        r.check(from_wal and len(written) == 1, "version-source", b,
-                "the version stored at %s:%d is computed by the WAL manager (%s)" % (
-                    b.file, w.line, ", ".join(fmt_leaf(x) for x in written)),
-                "the version stored at %s:%d has origins %s (expected: the WAL manager's last written version)" % (
-                    b.file, w.line, sorted(fmt_leaf(x) for x in written)), "%s:%d" % (b.file, w.line))
-        # the write precedes the save, the prune takes the same value
-        saves = [s for s in b.calls() if "SNAP_PUBLISH:INDEX" in sem_set(e for e in ctx.may.site_events(s) if ctx._concrete(e))]
-        prunes = [s for s in b.calls() if "WAL_PRUNE" in sem_set(e for e in ctx.may.site_events(s) if ctx._concrete(e))
-                  and s not in saves]
-        for s in saves:
-            r.check(b.dominates(w.bb, s.bb), "version-before-save", b,
-                    "the version is stored before the snapshot is saved (%s)" % site_where(s),
-                    "the snapshot at %s can be saved before its version is stored" % site_where(s), site_where(s))
-        for s in prunes:
-            pl = set()
-            for a in s.term["args"][1:]:
-                pl |= sl.leaves_up(a, depth=4)
-            pl = expand_down(ctx.world, b, pl, depth=3, stop=tuple(
-                p_ for p_, bd in prog.bodies.items() if bd.argc >= 1 and prog.adt_of(bd.locals[1])[0] == A.get("WALMGR")))
-            r.check(bool(written & pl), "prune-version", b,
-                    "the prune step at %s is given the version that was just saved" % site_where(s),
-                    "the prune step at %s is given %s, not the version just saved (%s)" % (
-                        site_where(s), sorted(fmt_leaf(x) for x in pl), sorted(fmt_leaf(x) for x in written)),
-                    site_where(s))
+        own_prunes = [s for s in pb.calls() if "WAL_PRUNE" in conc(s) and prog.local_target(s) is not None
+                      and prog.local_target(s).path in wal_methods]
+        if own_prunes and any("SNAP_PUBLISH:INDEX" in conc(s) for s in pb.calls()):
+            views.append(pb)
+    covered = set()
+    for pb in views:
+        V = ctx.flat(pb, stop=wal_methods)
+        sl = Slicer(ctx.world, V)
+        writes = []
+        for bb in V.normal_blocks():
+            if V.origin_key(bb)[0] in lfam:
+                continue
+            for st in V.stmts(bb):
+                if st["k"] != "assign" or not st["lhs"]["p"]:
+                    continue
+                lhs = st["lhs"]
+                root = lhs if any(isinstance(e, dict) and "f" in e for e in lhs["p"]) else \
+                    ctx.world._root_place(V, {"l": lhs["l"], "p": []})
+                if g.node_of_place(V, root) == sv:
+                    writes.append((bb, st))
+                    covered.add(V.origin_key(bb))
+        save_keys = set(fs.key() for chain in ctx.sem_chains("SNAP_PUBLISH:INDEX") for fs in chain)
+        saves = [s for s in V.calls() if s.key() in save_keys or "SNAP_PUBLISH:INDEX" in conc(V.orig_site(s))]
+        # the outermost of nested occurrences: a site that is not reachable only through another save site's callee
+        saves = [s for s in saves if not V.blocks[s.bb].get("cleanup")]
+        prunes = [s for s in V.calls() if "WAL_PRUNE" in conc(V.orig_site(s)) and s not in saves]
+        for (wbb, st) in writes:
+            rv = st["rv"]
+            where = "%s:%d" % (V.blocks[wbb]["span"].get("file", pb.file), st.get("line", 0))
+            written = sl.leaves_up(rv["op"], depth=4) if rv["k"] == "use" else (
+                sl.leaves_of_rv(rv, wbb) if rv["k"] == "agg" else set())
+            written = expand_down(ctx.world, V, written, depth=3, stop=wal_methods)
+            from_wal = False
+            for l in written:
+                if l[0] != "call":
+                    continue
+                t = sl.call_at(l[2])
+                lb_ = sl.body_at(l[2])
+                tgt = prog.local_target(Site(lb_, l[2][1] if isinstance(l[2], tuple) else l[2], t))
+                if tgt is not None and tgt.argc >= 1 and prog.adt_of(tgt.locals[1])[0] == walmgr:
+                    from_wal = True
+            r.check(from_wal and len(written) == 1, "version-source", pb,
+                    "the version stored at %s is computed by the WAL manager (%s)" % (where, ", ".join(fmt_leaf(x) for x in written)),
+                    "the version stored at %s has origins %s (expected: the WAL manager's last written version)" % (
+                        where, sorted(fmt_leaf(x) for x in written)), where)
+            for s in saves:
+                r.check(V.dominates(wbb, s.bb), "version-before-save", pb,
+                        "the version is stored before the snapshot is saved (%s)" % site_where(s),
+                        "the snapshot at %s can be saved before its version is stored" % site_where(s), site_where(s))
+            for s in prunes:
+                pl = set()
+                for a in s.term["args"][1:]:
+                    pl |= sl.leaves_up(a, depth=4)
+                pl = expand_down(ctx.world, V, pl, depth=3, stop=wal_methods)
+                r.check(bool(written & pl), "prune-version", pb,
+                        "the prune step at %s is given the version that was just saved" % site_where(s),
+                        "the prune step at %s is given %s, not the version just saved (%s)" % (
+                            site_where(s), sorted(fmt_leaf(x) for x in pl), sorted(fmt_leaf(x) for x in written)),
+                        site_where(s))
+    # writes of the snapshot version anywhere else (outside the loader and outside every checkpoint view)
+    for w in ctx.world.field_writes:
+        if w.field != sv or w.body.path in lfam or (w.body.path, w.bb) in covered:
+            continue
+        r.bad("version-source", w.body, "the snapshot version is also written at %s:%d, outside the checkpoint path" % (
+            w.body.file, w.line), "%s:%d" % (w.body.file, w.line))
     # (c) load: replay starts from the version of the state returned by the loader (the two calls may sit in helpers of
     # the load function: judged on the smallest flat view that contains both)
     cb_paths = set(cb.path for cb in replay_callbacks(ctx))
@@ -353,7 +402,9 @@ def loader_refcounts(ctx, r, loaders):
     """In the loader: the key map is filled (insert per key, or assigned as a whole) and the reference count of every
     loaded key's hash is bumped once - per insert in the same iteration, or in a loop over the filled map."""
     prog = ctx.prog
-    for lb in loaders:
+    total_fill = 0
+    fam = loader_family(ctx, loaders)
+    for lb in fam:
         sl = Slicer(ctx.world, lb)
         inserts = [cu for cu in ctx.world.container_uses if cu.site.body.path == lb.path and
                    "INDEX_MUTATE" in sem(("CONT", cu.field, cu.method, cu.mutable)) and cu.method == "insert"]
@@ -424,8 +475,10 @@ def loader_refcounts(ctx, r, loaders):
                     "after the key map is assigned at %s:%d, a loop over it bumps the refcount once per entry" % (lb.file, w.line),
                     "the key map is assigned as a whole at %s:%d but no loop over it bumps the reference count of each "
                     "entry's hash once" % (lb.file, w.line), "%s:%d" % (lb.file, w.line))
-        r.check(bool(inserts) or bool(whole_keys), "loader-inserts", lb,
-                "%d insert site(s), %d whole assignment(s) of the key map in the loader" % (len(inserts), len(whole_keys)),
+        total_fill += len(inserts) + len(whole_keys)
+    for lb in loaders:
+        r.check(total_fill >= 1, "loader-inserts", lb,
+                "%d site(s) fill the key map in the loader (and its private helpers)" % total_fill,
                 "the snapshot loader does not fill the key map")
 
 
@@ -452,10 +505,20 @@ def load_rebuilds(ctx, r, loaders, cbs):
                 tg = prog.local_target(s)
                 if tg is not None and any(cb.path in prog.reachable_bodies([tg]) for cb in cbs):
                     rep.append(s)
-            r.check(bool(rec), "recompute-call", b, "statistics are recomputed in %s (%s)" % (
-                b.path, ", ".join(site_where(s) for s in rec)), "%s never recomputes the statistics after loading" % b.path)
+            # ... or the loader does it itself before it returns (every Ok return of the loader lies behind the call)
+            inside = False
+            LV = ctx.flat(lb, stop=tuple(sorted(stats_bodies)))
+            lrec = [s for s in LV.calls() if prog.local_target(s) is not None and prog.local_target(s).path in stats_bodies]
+            if lrec:
+                lrf = ctx.rf(LV)
+                oks = [bb for bb, kind in lrf.forwarded.items() if kind == "ok" or isinstance(kind, tuple)]
+                inside = bool(oks) and all(any(LV.dominates(x.bb, bb) for x in lrec) for bb in oks)
+            r.check(bool(rec) or inside, "recompute-call", b, "statistics are recomputed %s (%s)" % (
+                "in %s" % b.path if rec else "by the loader before it returns",
+                ", ".join(site_where(s) for s in (rec or lrec))), "%s never recomputes the statistics after loading" % b.path)
             for s in rep:
-                ok = any(b.dominates(x.bb, s.bb) and b.dominates(csite.bb, x.bb) for x in rec)
+                ok = any(b.dominates(x.bb, s.bb) and b.dominates(csite.bb, x.bb) for x in rec) or \
+                    (inside and b.dominates(csite.bb, s.bb))
                 r.check(ok, "recompute-before-replay", b,
                         "load -> recompute -> replay (%s) on every path" % site_where(s),
                         "replay at %s is not preceded by a recomputation of the statistics of the loaded snapshot" %
